@@ -318,8 +318,8 @@ func c12CLI(c *fw.Ctx) fw.Outcome {
 		fa, fb, fo = cliFormats[4], cliFormats[4+c.R.Intn(2)], cliFormats[4+c.R.Intn(2)]
 		ea, eb, eo = fa.ext, fb.ext, fo.ext
 	}
-	ina, inb := filepath.Join(c.TmpDir(), "a."+ea), filepath.Join(c.TmpDir(), "b."+eb)
-	out := filepath.Join(c.TmpDir(), "out."+eo)
+	ina, inb := filepath.Join(c.TmpDir(), fw.Pick(c.R, []string{"a", "Show [en], part 1"})+"."+ea), filepath.Join(c.TmpDir(), fw.Pick(c.R, []string{"b", "b 100% (x)"})+"."+eb)
+	out := filepath.Join(c.TmpDir(), fw.Pick(c.R, []string{"out", "out, merged [%d]"})+"."+eo)
 	da, db := fa.doc(a), fb.doc(b)
 	ssaBoth := fa.unit == 1e7 && fb.unit == 1e7 && fo.unit == 1e7
 	if ssaBoth {
